@@ -1,7 +1,9 @@
 (* Proofs about Model/StreamPool.v (property C19), part 4: history-level clauses of spec_C19.
    queue.Close() / pool.removeStream are irreversible per stream object in every schedule ([run_heap_mono]); hence over
    any harness-level history the observer sees the drpc Close() of a stream at most once and its removal at most once
-   ([model_hist_once_ok]) — the "Close() once, removal once" clauses of [obs_ok]. *)
+   ([model_hist_once_ok]) — the "Close() once, removal once" clauses of [obs_ok].
+   Last section: the MsgSend entry / return log ([spec_events]: one writer per stream) holds of every history of the
+   model ([model_hist_events_ok]), via a per-label lemma that is valid for every label sequence ([run_events_alt]). *)
 From Coq Require Import List NArith Bool Lia Arith.
 Import ListNotations.
 From AnySync Require Import Model.StreamPool Proofs.StreamPoolProofs Proofs.StreamPoolIndex Proofs.StreamPoolSpec.
@@ -233,7 +235,8 @@ Qed.
 Theorem spec_implies_once : forall ops observed,
   spec_C19 ops observed = true -> spec_once_from (mkOst [] [] []) 0 observed = true.
 Proof.
-  intros ops observed H. unfold spec_C19 in H. apply andb_true_iff in H. destruct H as (_ & H).
+  intros ops observed H. unfold spec_C19 in H. apply andb_true_iff in H. destruct H as (H & _).
+  apply andb_true_iff in H. destruct H as (_ & H).
   exact (spec_from_once _ _ _ H).
 Qed.
 
@@ -242,3 +245,250 @@ Theorem flags_irreversible : forall c tr tr' sid x,
   exists y, hget sid (objs (run (run (init c) tr) tr')) = Some y /\
             (st_qclosed x = true -> st_qclosed y = true) /\ (st_removed x = true -> st_removed y = true).
 Proof. intros c tr tr' sid x H. exact (run_heap_mono tr' _ (reachable_idx_inv c tr) sid x H). Qed.
+
+(* ================================================================== MsgSend entry / return log: one writer per stream
+   ([spec_events], the third conjunct of [spec_C19]) holds of every history of the model *)
+
+Lemma alt_run_app : forall a b cur,
+  alt_run cur (a ++ b) = match alt_run cur a with Some c => alt_run c b | None => None end.
+Proof.
+  induction a as [|[m e] a IH]; intros b cur; cbn [app alt_run]; [reflexivity|].
+  destruct e; destruct cur as [m0|]; try reflexivity; try apply IH.
+  destruct (m0 =? m); [apply IH|reflexivity].
+Qed.
+
+Lemma events_of_app : forall sid a b, events_of sid (a ++ b) = events_of sid a ++ events_of sid b.
+Proof. intros sid a b. unfold events_of. rewrite filter_app, map_app. reflexivity. Qed.
+
+Lemma events_of_cons : forall sid (x : ev) l,
+  events_of sid (x :: l) = (if fst x =? sid then [snd x] else []) ++ events_of sid l.
+Proof. intros sid x l. unfold events_of. cbn [filter]. destruct (fst x =? sid); reflexivity. Qed.
+
+Lemma events_of_single : forall sid k (e : N * bool), events_of sid [(k, e)] = if k =? sid then [e] else [].
+Proof. intros sid k e. unfold events_of. cbn [filter fst]. destruct (k =? sid); reflexivity. Qed.
+
+(* the stable sort by stream id does not change the log of any single stream *)
+Lemma events_of_insK : forall sid (x : ev) l, events_of sid (insK x l) = events_of sid (x :: l).
+Proof.
+  intros sid x l. induction l as [|y r IH]; cbn [insK]; [reflexivity|].
+  destruct (fst x <=? fst y) eqn:Ele; [reflexivity|].
+  rewrite (events_of_cons sid y), IH, !events_of_cons.
+  destruct (fst x =? sid) eqn:Ex; destruct (fst y =? sid) eqn:Ey; cbn [app]; try reflexivity.
+  apply N.eqb_eq in Ex. apply N.eqb_eq in Ey. apply N.leb_gt in Ele. lia.
+Qed.
+
+Lemma events_of_sortK : forall sid (l : list ev), events_of sid (sortK l) = events_of sid l.
+Proof.
+  intros sid l. induction l as [|x l IH]; [reflexivity|].
+  unfold sortK in *. cbn [fold_right]. rewrite events_of_insK, !events_of_cons, IH. reflexivity.
+Qed.
+
+(* ---- the message in flight of a stream, read off the heap *)
+Definition hinfl (h : heap) (sid : N) : option N :=
+  match hget sid h with Some st => st_inflight st | None => None end.
+
+Lemma infl_hinfl : forall s sid, infl s sid = hinfl (objs s) sid.
+Proof. reflexivity. Qed.
+
+Lemma hinfl_hset_keep : forall h k st st' sid,
+  hget k h = Some st -> st_inflight st' = st_inflight st -> hinfl (hset k st' h) sid = hinfl h sid.
+Proof.
+  intros h k st st' sid Hk Hi. unfold hinfl. rewrite hget_hset.
+  destruct (sid =? k) eqn:E; [|reflexivity]. apply N.eqb_eq in E; subst sid. rewrite Hk. exact Hi.
+Qed.
+
+Lemma hinfl_hset_new : forall h k st' sid,
+  hget k h = None -> st_inflight st' = None -> hinfl (hset k st' h) sid = hinfl h sid.
+Proof.
+  intros h k st' sid Hk Hi. unfold hinfl. rewrite hget_hset.
+  destruct (sid =? k) eqn:E; [|reflexivity]. apply N.eqb_eq in E; subst sid. rewrite Hk. exact Hi.
+Qed.
+
+Lemma hinfl_upd_stream_keep : forall s k f sid,
+  (forall st, st_inflight (f st) = st_inflight st) -> hinfl (objs (upd_stream s k f)) sid = hinfl (objs s) sid.
+Proof.
+  intros s k f sid Hf. unfold upd_stream. destruct (hget k (objs s)) as [st|] eqn:E; [|reflexivity].
+  cbn. eapply hinfl_hset_keep; eauto.
+Qed.
+
+Lemma hinfl_add_stream : forall s p c t g sid, idx_inv s ->
+  hinfl (objs (fst (add_stream s p c t g))) sid = hinfl (objs s) sid.
+Proof.
+  intros s p c t g sid Hi. unfold add_stream. cbn. apply hinfl_hset_new; [apply fresh_id; exact Hi|reflexivity].
+Qed.
+
+Lemma write_stream_infl : forall st m, st_inflight (fst (write_stream st m)) = st_inflight st.
+Proof.
+  intros st m. unfold write_stream. destruct (st_qclosed st); [reflexivity|].
+  destruct (st_cap st <=? N.of_nat (length (st_queue st))); reflexivity.
+Qed.
+
+(* WaitOne hands out a message only to an idle writer, and then that message is in flight *)
+Lemma take_infl : forall st,
+  match snd (take st) with
+  | Some m => st_inflight st = None /\ st_inflight (fst (take st)) = Some m
+  | None => st_inflight (fst (take st)) = st_inflight st
+  end.
+Proof.
+  intros st. unfold take. destruct (st_wdone st); [reflexivity|].
+  destruct (st_inflight st) as [m0|] eqn:Ei; [cbn; exact Ei|].
+  destruct (st_queue st) as [|m q]; [|cbn; split; reflexivity].
+  destruct (st_qclosed st); cbn; [reflexivity|exact Ei].
+Qed.
+
+Lemma close_queue_infl : forall st, st_inflight (close_queue st) = st_inflight st.
+Proof. intros st. unfold close_queue. destruct (st_closing st && negb (st_qclosed st)); reflexivity. Qed.
+
+Ltac keep_infl := cbn [events_of filter map alt_run]; f_equal; symmetry.
+
+(* one label: the events it produces for stream [sid] lead from the message in flight before to the one after *)
+Lemma step_events_alt : forall s l sid, idx_inv s ->
+  alt_run (infl s sid) (events_of sid (label_events s l)) = Some (infl (step s l) sid).
+Proof.
+  intros s l sid Hi. rewrite !infl_hinfl. unfold label_events, step, step_out.
+  destruct (fatal s || panicked s); [reflexivity|].
+  destruct l; cbn [fst].
+  - keep_infl. apply hinfl_add_stream; exact Hi.
+  - keep_infl. rewrite objs_start_caller. reflexivity.
+  - keep_infl. rewrite objs_start_caller. reflexivity.
+  - keep_infl. unfold do_write. destruct (cget cid (callers s)) as [p|]; [|reflexivity].
+    destruct (next_target (p_groups p)) as [[[k g] rest]|]; [|reflexivity].
+    destruct (hget k (objs s)) as [st|] eqn:E; [|reflexivity].
+    pose proof (write_stream_infl st (p_msg p)) as Hw. destruct (write_stream st (p_msg p)) as [st' r]. cbn [fst] in *.
+    cbn. eapply hinfl_hset_keep; eauto.
+  - keep_infl. unfold add_tags. destruct (negb (memN sid0 (pool_ids s))); [reflexivity|].
+    destruct (hget sid0 (objs s)) as [st|] eqn:E; [|reflexivity].
+    destruct (add_new_tags (st_tags st) tags) as [cur' newt]. cbn.
+    eapply hinfl_hset_keep; eauto.
+  - keep_infl. unfold remove_tags. destruct (negb (memN sid0 (pool_ids s))); [reflexivity|].
+    destruct (hget sid0 (objs s)) as [st|] eqn:E; [|reflexivity].
+    destruct (idx_remove_all _ _ sid0); cbn; eapply hinfl_hset_keep; eauto.
+  - keep_infl. destruct (all_in_pool s (streams_of s tags)); reflexivity.
+  - (* LTake *)
+    destruct (hget sid0 (objs s)) as [st|] eqn:E; [|reflexivity].
+    pose proof (take_infl st) as Ht. destruct (take st) as [st' o]. cbn [fst snd] in *.
+    destruct (N.eq_dec sid sid0) as [->|Hne].
+    + destruct o as [m|].
+      * destruct Ht as (H0 & H1). rewrite events_of_single, N.eqb_refl. cbn [alt_run].
+        unfold hinfl. cbn [objs upd_objs]. rewrite hget_hset_same, E, H0, H1. reflexivity.
+      * cbn [events_of filter map alt_run]. f_equal. symmetry. cbn. eapply hinfl_hset_keep; eauto.
+    + assert (Hk : hinfl (objs (upd_objs s (hset sid0 st' (objs s)))) sid = hinfl (objs s) sid).
+      { unfold hinfl. cbn. rewrite hget_hset_other; auto. }
+      rewrite Hk. destruct o as [m|]; [|reflexivity].
+      rewrite events_of_single. apply N.eqb_neq in Hne. rewrite N.eqb_sym in Hne. rewrite Hne. reflexivity.
+  - (* LSendOk *)
+    unfold infl, upd_stream. destruct (hget sid0 (objs s)) as [st|] eqn:E; [|reflexivity].
+    destruct (N.eq_dec sid sid0) as [->|Hne].
+    + unfold hinfl. cbn [objs upd_objs]. rewrite hget_hset_same, E. unfold send_ok.
+      destruct (st_inflight st) as [m|] eqn:Ei.
+      * rewrite events_of_single, N.eqb_refl. cbn [alt_run]. rewrite N.eqb_refl. reflexivity.
+      * cbn. rewrite Ei. reflexivity.
+    + assert (Hk : forall f, hinfl (objs (upd_objs s (hset sid0 (f st) (objs s)))) sid = hinfl (objs s) sid).
+      { intros f. unfold hinfl. cbn. rewrite hget_hset_other; auto. }
+      rewrite Hk. destruct (st_inflight st) as [m|]; [|reflexivity].
+      rewrite events_of_single. apply N.eqb_neq in Hne. rewrite N.eqb_sym in Hne. rewrite Hne. reflexivity.
+  - (* LSendFail *)
+    unfold infl, upd_stream. destruct (hget sid0 (objs s)) as [st|] eqn:E; [|reflexivity].
+    destruct (N.eq_dec sid sid0) as [->|Hne].
+    + unfold hinfl. cbn [objs upd_objs]. rewrite hget_hset_same, E. unfold send_fail.
+      destruct (st_inflight st) as [m|] eqn:Ei.
+      * rewrite events_of_single, N.eqb_refl. cbn [alt_run]. rewrite N.eqb_refl. reflexivity.
+      * cbn. rewrite Ei. reflexivity.
+    + assert (Hk : forall f, hinfl (objs (upd_objs s (hset sid0 (f st) (objs s)))) sid = hinfl (objs s) sid).
+      { intros f. unfold hinfl. cbn. rewrite hget_hset_other; auto. }
+      rewrite Hk. destruct (st_inflight st) as [m|]; [|reflexivity].
+      rewrite events_of_single. apply N.eqb_neq in Hne. rewrite N.eqb_sym in Hne. rewrite Hne. reflexivity.
+  - keep_infl. apply hinfl_upd_stream_keep. reflexivity.
+  - keep_infl. apply hinfl_upd_stream_keep. apply close_queue_infl.
+  - keep_infl. unfold remove_stream. destruct (hget sid0 (objs s)) as [st|] eqn:E; [|reflexivity].
+    destruct (st_qclosed st && negb (st_removed st)); [|reflexivity].
+    destruct (negb (memN sid0 (pool_ids s))); [reflexivity|].
+    destruct (idx_remove (by_peer s) (st_peer st) sid0); [|reflexivity].
+    destruct (idx_remove_all (by_tag s) (st_tags st) sid0); [|reflexivity].
+    cbn. eapply hinfl_hset_keep; eauto.
+  - keep_infl. unfold send_enqueue. destruct (_ && _); reflexivity.
+  - keep_infl. unfold dial_take. destruct (running s <? dial_workers (cfg s)); [|reflexivity].
+    destruct (dialq s) as [|[[c m] ps] q]; reflexivity.
+  - keep_infl. unfold dial_peer. destruct (cget cid (callers s)) as [p|]; [|reflexivity].
+    destruct (next_target (p_groups p)); [reflexivity|].
+    destruct (p_peers p) as [|peer rest]; [reflexivity|].
+    destruct (mget peer (by_peer s)) as [|x g].
+    + destruct opn as [[[cap tags] cg]|]; [|reflexivity].
+      pose proof (hinfl_add_stream s peer cap tags cg sid Hi) as H.
+      destruct (add_stream s peer cap tags cg) as [s1 k]; cbn [fst] in *.
+      rewrite objs_start_caller. exact H.
+    + cbn [fst]. rewrite objs_start_caller. reflexivity.
+  - keep_infl. unfold dial_done. destruct (cget cid (callers s)) as [p|]; [|reflexivity].
+    destruct (next_target (p_groups p)); [reflexivity|]. destruct (p_peers p); [|reflexivity].
+    destruct (p_mode p); try reflexivity. destruct (0 <? running s); reflexivity.
+Qed.
+
+(* every label sequence (every schedule) *)
+Theorem run_events_alt : forall ls s sid, idx_inv s ->
+  alt_run (infl s sid) (events_of sid (run_events s ls)) = Some (infl (run s ls) sid).
+Proof.
+  induction ls as [|l ls IH]; intros s sid Hi; cbn [run_events run fold_left]; [reflexivity|].
+  rewrite events_of_app, alt_run_app, (step_events_alt s l sid Hi).
+  apply IH. apply step_idx_inv; exact Hi.
+Qed.
+
+Lemma run_hist_events_alt : forall ops s i sid, idx_inv s ->
+  exists c, alt_run (infl s sid) (events_of sid (flat_map o_events (run_hist s i ops))) = Some c.
+Proof.
+  induction ops as [|op ops IH]; intros s i sid Hi; cbn [run_hist]; [eexists; reflexivity|].
+  unfold run_op. cbn [flat_map o_events].
+  rewrite events_of_app, alt_run_app, events_of_sortK, (run_events_alt _ s sid Hi).
+  apply IH. apply run_idx_inv; exact Hi.
+Qed.
+
+Lemma pairs_eqb_refl : forall l, pairs_eqb l l = true.
+Proof. induction l as [|x l IH]; cbn [pairs_eqb]; [reflexivity|]. rewrite !N.eqb_refl, IH. reflexivity. Qed.
+
+Lemma run_hist_takes_entries : forall ops s i,
+  forallb (fun o => pairs_eqb (entries (o_events o)) (o_takes o)) (run_hist s i ops) = true.
+Proof.
+  induction ops as [|op ops IH]; intros s i; cbn [run_hist]; [reflexivity|].
+  unfold run_op. cbn [forallb o_events o_takes]. rewrite pairs_eqb_refl. apply IH.
+Qed.
+
+Theorem model_hist_events_ok : forall c ops, spec_events (model_hist c ops) = true.
+Proof.
+  intros c ops. unfold spec_events, model_hist. rewrite run_hist_takes_entries. cbn [andb].
+  apply forallb_forall. intros sid _. unfold stream_events_ok.
+  destruct (run_hist_events_alt ops (init c) 0 sid (init_idx_inv c)) as (cur & H).
+  change (infl (init c) sid) with (@None N) in H. rewrite H. reflexivity.
+Qed.
+
+Theorem spec_implies_events : forall ops observed, spec_C19 ops observed = true -> spec_events observed = true.
+Proof. intros ops observed H. unfold spec_C19 in H. apply andb_true_iff in H. destruct H as (_ & H). exact H. Qed.
+
+(* what the clause means: after every prefix of a stream's MsgSend log the number of calls entered and not yet
+   returned is 0 or 1 *)
+Definition count_ev (b : bool) (l : list (N * bool)) : nat := length (filter (fun e => Bool.eqb (snd e) b) l).
+Definition olen (o : option N) : nat := match o with Some _ => 1%nat | None => 0%nat end.
+
+Lemma alt_run_balance : forall l cur c, alt_run cur l = Some c ->
+  (olen cur + count_ev true l = count_ev false l + olen c)%nat.
+Proof.
+  induction l as [|[m e] l IH]; intros cur c H; cbn [alt_run] in H.
+  - inversion H; subst. cbn. lia.
+  - destruct e; destruct cur as [m0|]; try discriminate.
+    + apply IH in H. unfold count_ev in *. cbn in *. lia.
+    + destruct (m0 =? m); [|discriminate]. apply IH in H. unfold count_ev in *. cbn in *. lia.
+Qed.
+
+Theorem events_at_most_one_in_flight : forall observed sid pre post,
+  spec_events observed = true ->
+  events_of sid (flat_map o_events observed) = pre ++ post ->
+  (count_ev true pre = count_ev false pre \/ count_ev true pre = S (count_ev false pre))%nat.
+Proof.
+  intros observed sid pre post H Hsplit. unfold spec_events in H. apply andb_true_iff in H. destruct H as (_ & H).
+  destruct pre as [|e0 pre']; [left; reflexivity|].
+  assert (Hin : In sid (map fst (flat_map o_events observed))).
+  { assert (Hx : In e0 (events_of sid (flat_map o_events observed))) by (rewrite Hsplit; left; reflexivity).
+    unfold events_of in Hx. apply in_map_iff in Hx. destruct Hx as (x & Hx1 & Hx2). apply filter_In in Hx2.
+    destruct Hx2 as (Hx2 & Hx3). apply N.eqb_eq in Hx3. apply in_map_iff. exists x. split; assumption. }
+  rewrite forallb_forall in H. specialize (H sid Hin). unfold stream_events_ok in H. rewrite Hsplit, alt_run_app in H.
+  destruct (alt_run None (e0 :: pre')) as [c|] eqn:E; [|discriminate].
+  apply alt_run_balance in E. cbn [olen] in E. destruct c; cbn [olen] in E; [right|left]; lia.
+Qed.
